@@ -58,13 +58,11 @@ var (
 )
 
 func GetFenceHandler() *tccFenceWrapperHandler {
-	if fenceHandler == nil {
-		fenceOnce.Do(func() {
-			fenceHandler = &tccFenceWrapperHandler{
-				tccFenceDao: dao.GetTccFenceStoreDatabaseMapper(),
-			}
-		})
-	}
+	fenceOnce.Do(func() {
+		fenceHandler = &tccFenceWrapperHandler{
+			tccFenceDao: dao.GetTccFenceStoreDatabaseMapper(),
+		}
+	})
 	return fenceHandler
 }
 
